@@ -24,6 +24,9 @@ CapsOf(p) == CASE p = "p1" -> {<<"f", "a">>}
                [] p = "p4" -> {<<"g", "a">>}
                [] p = "p5" -> {<<"f", "a">>, <<"f", "b">>}
                [] p = "p6" -> {<<"g", "a">>}
+               [] p = "p7" -> {<<"f", "c:T">>}
+               [] p = "p8" -> {<<"f", "c">>}
+               [] p = "p9" -> {<<"f", "a">>}
                [] p = "bad" -> {<<"f", "zzz">>}
                [] p = "bad2" -> {<<"g", "#nope">>}
 AllCapPairs == UNION {CapsOf(p) : p \in Probes}
